@@ -77,7 +77,8 @@ def in_known_region(body, funcs):
 
 def run_case(body, funcs, timeout=15.0):
     script = gen_prog.render_program(funcs, body)
-    rb, rr = diffrun.run_both(script, timeout=timeout)
+    # positional parameters are set: `for v in ; do` (empty list) and `for v; do` (positional parameters) must differ
+    rb, rr = diffrun.run_both(script, timeout=timeout, args=("pa", "pb"))
     return script, rb, rr
 
 
